@@ -25,9 +25,9 @@ ListSatisfiesR ==
          /\ \A k \in 1..Len(rr) :
               /\ il[k].status = "Ready"
               /\ il[k].lr = LineRange(d, rr[k])
-              /\ ColumnsDetermined(t, d.br, rr[k]) => il[k].block = RenderItem(t, d.br, rr[k])
+              /\ ColumnsDetermined(t, d.br, rr[k]) => il[k].block = RenderItem(t, d.br, rr[k], 9)
          /\ (t[1] # NL) =>
               /\ Len(ia) = Len(ar)
               /\ \A k \in 1..Len(ar) : ia[k].lr = LineRange(d, ar[k][1]) /\ ia[k].status = ar[k][2]
-                                        /\ (ColumnsDetermined(t, d.br, ar[k][1]) => ia[k].block = RenderItem(t, d.br, ar[k][1]))
+                                        /\ (ColumnsDetermined(t, d.br, ar[k][1]) => ia[k].block = RenderItem(t, d.br, ar[k][1], 9))
 =============================================================================
